@@ -4,6 +4,7 @@ CONSTANTS
   MaxSessions = 1
   QueriesPerReader = 1
   LockBeforeBump = FALSE
+  DropSessions = TRUE
   Emit = FALSE
 PROPERTY Progress
 VIEW View
